@@ -5,7 +5,7 @@
    Models: C04_Model.v (machine level: int64 arithmetic, nil dereference, the tiny code paths, the wide facade),
    LRUOps.v (ideal LRU: recency list + trim).  This file contains statements closed by `exact` only. *)
 From Coq Require Import ZArith List Lia Bool Permutation.
-Require Import LRU Shard LRUOps C04_Model C04_Refine C04_Wide C04_Theorems C04_Check C04_Burst C04_Sia C04_Rem C04_Stat C04_First.
+Require Import LRU Shard LRUOps C04_Model C04_Refine C04_Wide C04_Theorems C04_Check C04_Burst C04_Sia C04_Rem C04_Stat C04_First C04_Churn.
 Import ListNotations.
 Open Scope Z_scope.
 
@@ -199,6 +199,25 @@ Theorem c04_wide_first_touch : forall v route capacity n h i,
   forall w, In w (flat_map (wr v) ops) -> In w (lst (fst (wide_run v route (wide_init capacity n) h) i)).
 Proof. exact wide_first_touch. Qed.
 
+(* own-key churn, with Delete: when every key of the universe fits with the largest size it is ever given, nothing is ever
+   evicted and the cache is an unbounded map: key by key, what it holds after ANY order of the calls is what the calls on
+   that key, in their order, leave in the map; so two linearisations that order the calls on every key alike (disjoint
+   per-goroutine key sets: always) end with the same contents *)
+Theorem c04_churn_key_local : forall v univ bnd cap0 ops,
+  cap_dom cap0 -> (forall k, 0 <= bnd k) -> zsum (map bnd univ) <= cap0 ->
+  Forall op_dom ops -> Forall (chop v univ bnd) ops ->
+  let c := fst (mrun v (new_lru cap0) ops) in
+  (forall k, option_map pairof (lookup k (lst c)) = assoc k (crun [] (filter (on k) (map (norm v) ops)))) /\
+  evs c = 0 /\ cap c = cap0 /\ size c = total (lst c) /\ NoDup (keys_of c).
+Proof. exact churn_key_local. Qed.
+Theorem c04_churn_interleaving_independent : forall v univ bnd cap0 ops1 ops2,
+  cap_dom cap0 -> (forall k, 0 <= bnd k) -> zsum (map bnd univ) <= cap0 ->
+  Forall op_dom ops1 -> Forall (chop v univ bnd) ops1 -> Forall op_dom ops2 -> Forall (chop v univ bnd) ops2 ->
+  (forall k, filter (on k) (map (norm v) ops1) = filter (on k) (map (norm v) ops2)) ->
+  forall k, option_map pairof (lookup k (lst (fst (mrun v (new_lru cap0) ops1)))) =
+            option_map pairof (lookup k (lst (fst (mrun v (new_lru cap0) ops2)))).
+Proof. exact churn_interleaving_independent. Qed.
+
 (* non-vacuity: the hypotheses are satisfiable and the operations do evict (sized, tiny, wide) *)
 Theorem c04_demo_sized :
   let ops := [Set_ 1 10 2; Set_ 2 20 2; Get 1; Set_ 3 30 2; Peek 1; Exist 2; SetAndGetRemoved 1 11 4; Set_ 4 40 9; Set_ 5 50 1; Set_ 6 60 1;
@@ -258,6 +277,8 @@ Print Assumptions c04_rem_every_linearisation.
 Print Assumptions c04_uniform_size.
 Print Assumptions c04_sets_all_present.
 Print Assumptions c04_wide_first_touch.
+Print Assumptions c04_churn_key_local.
+Print Assumptions c04_churn_interleaving_independent.
 Print Assumptions c04_demo_sized.
 Print Assumptions c04_demo_tiny.
 Print Assumptions c04_demo_wide.
